@@ -74,6 +74,9 @@ fn classify(r: Result<scylla::response::query_result::QueryResult, ExecutionErro
         Err(ExecutionError::LastAttemptError(RequestAttemptError::UnableToAllocStreamId)) => Outcome::ErrAlloc,
         Err(e) => {
             let d = format!("{:?}", e);
+            if d.contains("TooManyOrphanedStreamIds") {
+                return Outcome::Other("TooManyOrphanedStreamIds".into());
+            }
             let mut w: Vec<&str> = d.split(|c: char| !c.is_alphanumeric()).filter(|s| !s.is_empty()).take(3).collect();
             if w.is_empty() {
                 w.push("err");
@@ -217,14 +220,23 @@ impl Env {
         let mut owed: HashMap<(u64, i16), u64> = HashMap::new();
         let mut raw_idx = 0usize;
         let mut conns_seen: HashSet<u64> = HashSet::new();
-        // only the FIRST pool connection is judged; a second one exists only after a break
-        let first_conn = trace.iter().filter(|e| !control.contains(&e.conn_id) && matches!(e.ev, Ev::In { .. })).map(|e| e.conn_id).min();
+        // Only the FIRST connection that carried marker requests is judged; a second one exists only
+        // after a break.  Connections without marker requests are strangers: sessions of scenarios that
+        // ended (here or in another process) keep knocking at the address of their dead mock, which a
+        // new cluster may have taken over.
+        let carries_marker = |e: &TraceEvent| -> bool {
+            match &e.ev {
+                Ev::In { opcode, body, .. } if *opcode == op::QUERY => wire::decode_query(body).ok().and_then(|q| marker_of_text(&q.text)).is_some(),
+                _ => false,
+            }
+        };
+        for e in trace.iter().filter(|e| !control.contains(&e.conn_id) && carries_marker(e)) {
+            conns_seen.insert(e.conn_id);
+        }
+        let first_conn = conns_seen.iter().copied().min();
         for e in &trace {
             if control.contains(&e.conn_id) {
                 continue;
-            }
-            if let Ev::In { .. } = &e.ev {
-                conns_seen.insert(e.conn_id);
             }
             if Some(e.conn_id) != first_conn {
                 continue;
@@ -245,9 +257,6 @@ impl Env {
                     mock.push((e.t_ns, format!("i{:x}.{:x}", *stream as u16, m)));
                 }
                 Ev::Out { stream, opcode, body, written, .. } => {
-                    if *stream < 0 {
-                        continue; // events
-                    }
                     // what the answer carries: the marker in its row, or (frames without rows) the
                     // marker of the request the mock answers on this stream
                     let m = match owed.get(&(e.conn_id, *stream)).copied() {
@@ -450,10 +459,28 @@ async fn scn_phased(seed: u64, n: usize) -> Result<String, String> {
 }
 
 // ------------------------------------------------------------------ R: random cancellation, multi-thread
-async fn scn_random(seed: u64, n: usize) -> Result<String, String> {
+/// `neg`: about one request in 12 is answered on a NEGATIVE stream id (-1 = event stream, or any other
+/// negative id) instead of its own: the reader must drop such frames (never `lookup` them), the
+/// request stays unanswered, its caller gives up after 300 ms.
+fn neg_marker(seed: u64, m: u64) -> Option<i16> {
+    let h = (m ^ seed).wrapping_mul(0x9E3779B97F4A7C15) >> 33;
+    if h % 12 == 0 { Some([-1i16, -2, -100, -32768, -1, -32767][(h / 12 % 6) as usize]) } else { None }
+}
+async fn scn_random(seed: u64, n: usize, neg: bool, storm: bool) -> Result<String, String> {
     let mut r = Rng::new(seed);
     let env = Arc::new(Env::start(r.bool()).await?);
-    env.set_policy(answer_mix(seed, r.range(2, 40)));
+    if neg {
+        let base = answer_mix(seed, r.range(2, 40));
+        env.set_policy(Arc::new(move |m, k, now| {
+            let mut a = base(m, k, now);
+            if let (Some(s), true) = (neg_marker(seed, m), m <= n as u64) {
+                a.push(Action::UnsolicitedStream(s));
+            }
+            a
+        }));
+    } else {
+        env.set_policy(answer_mix(seed, r.range(2, 40)));
+    }
     let mut handles = Vec::with_capacity(n);
     let burst = r.range(1, 400) as usize;
     let mut droppable = 0usize;
@@ -463,18 +490,30 @@ async fn scn_random(seed: u64, n: usize) -> Result<String, String> {
         // OLD_ORPHAN_COUNT_THRESHOLD (1024), whatever stalls the machine adds
         let mut how = r.below(12);
         if how <= 6 {
-            if droppable >= 900 {
+            if droppable >= (if neg { 700 } else { 900 }) {
                 how = 11;
             } else {
                 droppable += 1;
             }
         }
-        let d_us = match r.below(4) {
+        let mut d_us = match r.below(4) {
             0 => r.range(0, 50),
             1 => r.range(50, 800),
             2 => r.range(800, 6000),
             _ => r.range(6000, 60000),
         };
+        if storm {
+            // submit storm: every caller task is aborted from outside at a random instant within the
+            // first 3 ms, while the other submissions are still racing for the 1024 channel slots
+            // (allocate id -> wait for a slot -> push): the abort lands before, in or after the send
+            how = if droppable <= 900 && how <= 6 { 5 } else { 11 };
+            d_us = r.range(0, 3000);
+        }
+        if neg && neg_marker(seed, m).is_some() && m <= n as u64 {
+            // never answered on its own stream id: give up after 300 ms
+            how = 0;
+            d_us = 300_000;
+        }
         let e = env.clone();
         env.ev(0, format!("s{:x}", m));
         let h = tokio::spawn(async move {
@@ -503,7 +542,7 @@ async fn scn_random(seed: u64, n: usize) -> Result<String, String> {
             }
         });
         handles.push((m, h, if how == 5 || how == 6 { Some(d_us) } else { None }));
-        if i % burst == burst - 1 {
+        if !storm && i % burst == burst - 1 {
             tokio::task::yield_now().await;
         }
     }
@@ -653,6 +692,66 @@ async fn scn_exhaust(seed: u64, fill: usize, extra: usize, old: usize, young: us
         }
     }
     env.settle(Duration::from_millis(30), Duration::from_secs(5)).await;
+    let env = Arc::try_unwrap(env).map_err(|_| "env-still-shared".to_string())?;
+    Ok(env.finish(&[]))
+}
+
+// ------------------------------------------------------------------ K: the orphaner's threshold
+/// `abandon + live` requests held by the mock until `hold_ms`; the callers of the first `abandon`
+/// are dropped as soon as all frames are at the mock.  The orphaner ticks every second: with more
+/// than 1024 ids orphaned for longer than 1 s it ends the connection (TooManyOrphanedStreamIds) and
+/// every live caller fails; with 1024 or fewer nothing happens and the live callers get their
+/// answers at the release.
+async fn scn_threshold(seed: u64, abandon: usize, live: usize, hold_ms: u64) -> Result<String, String> {
+    let mut r = Rng::new(seed);
+    let env = Arc::new(Env::start(r.bool()).await?);
+    let release_at = env.now() + hold_ms * 1_000_000;
+    env.set_policy(Arc::new(move |_, _, now| if release_at > now { vec![Action::Delay((release_at - now) / 1_000_000 + 1)] } else { vec![] }));
+    let total = abandon + live;
+    let mut handles = Vec::with_capacity(total);
+    for i in 0..total {
+        let m = (i + 1) as u64;
+        let e = env.clone();
+        e.ev(0, format!("s{:x}", m));
+        handles.push(Some(tokio::spawn(async move {
+            let o = e.query(m).await;
+            e.ev(2, Env::done_token(m, &o));
+        })));
+        if i % 256 == 255 {
+            tokio::task::yield_now().await;
+        }
+    }
+    let t = Instant::now();
+    while env.received.load(Ordering::SeqCst) < total && t.elapsed() < Duration::from_millis(hold_ms / 4) {
+        tokio::time::sleep(Duration::from_millis(2)).await;
+    }
+    if env.received.load(Ordering::SeqCst) < total {
+        for h in handles.into_iter().flatten() {
+            h.abort();
+        }
+        env.cluster.shutdown();
+        return Err("window-missed".into());
+    }
+    // which callers are abandoned: a random subset of size `abandon`
+    let mut idx: Vec<usize> = (0..total).collect();
+    r.shuffle(&mut idx);
+    for &i in idx.iter().take(abandon) {
+        if let Some(h) = handles[i].take() {
+            h.abort();
+            let _ = h.await;
+            env.ev(2, format!("c{:x}", i + 1));
+        }
+    }
+    for (i, h) in handles.into_iter().enumerate() {
+        if let Some(h) = h {
+            let a = h.abort_handle();
+            if tokio::time::timeout(Duration::from_millis(hold_ms + 30_000), h).await.is_err() {
+                a.abort();
+                env.ev(2, format!("c{:x}", i + 1));
+            }
+        }
+    }
+    env.settle(Duration::from_millis(30), Duration::from_secs(3)).await;
     let env = Arc::try_unwrap(env).map_err(|_| "env-still-shared".to_string())?;
     Ok(env.finish(&[]))
 }
@@ -1058,7 +1157,23 @@ pub fn run_case(case: &str) -> Option<String> {
     let num = |i: usize| -> u64 { f.get(i).and_then(|s| s.parse().ok()).unwrap_or(0) };
     let res = match f.first().copied() {
         Some("P") => rt(0).block_on(scn_phased(num(1), num(2) as usize)),
-        Some("R") => rt(num(3).max(1) as usize).block_on(scn_random(num(1), num(2) as usize)),
+        Some("R") => rt(num(3).max(1) as usize).block_on(scn_random(num(1), num(2) as usize, false, false)),
+        Some("S") => rt(3).block_on(scn_random(num(1), num(2) as usize, false, true)),
+        Some("N") => rt(num(3).max(1) as usize).block_on(scn_random(num(1), num(2) as usize, true, false)),
+        Some("K") => {
+            // with more than 1024 abandoned callers the connection must end; if a stalled machine let the
+            // answers go before a tick saw the old orphans, try again with a longer hold
+            let mut res = Err("not-run".to_string());
+            for attempt in 0..3u64 {
+                res = rt(2).block_on(scn_threshold(num(1), num(2) as usize, num(3) as usize, num(4) << attempt));
+                match &res {
+                    Ok(s) if num(2) > 1024 && !s.contains(",close") && attempt < 2 => continue,
+                    Ok(_) => break,
+                    Err(_) => continue,
+                }
+            }
+            res
+        }
         Some("X") => {
             let mut res = Err("not-run".to_string());
             for attempt in 0..3u64 {
